@@ -90,7 +90,7 @@ def _counts_ok(train, query):
 
 RESOLUTIONS = [Time(year=2020, month=2, day=29), Time(hour=8, minute=30), Duration(3, DurationUnit.DAYS),
                Duration(3, DurationUnit.NIGHTS), Interval(Time(hour=8), Time(hour=9)), Interval(None, Time(hour=9)),
-               Time(year=2020, month=2, day=28)]
+               Time(year=2020, month=2, day=28), Time(year=2020, month=2, day=29, hour=8, minute=30)]
 NR = len(RESOLUTIONS)
 
 
@@ -102,6 +102,7 @@ def _clone(i, a, b):
 
 
 RES4 = [0, 2, 3, 4]        # indices into RESOLUTIONS: a date, 3 days, 3 nights, a clock interval
+RES4P = [1, 7, 4, 5]       # pairs in which one value is the other with fields left out: 8:30 / 2020-02-29 8:30, 8-9 / open-9 (either can be candidate or gold)
 
 
 def dataset_check(n, r0, r1, l0, g, g2, none_first, two):
@@ -148,6 +149,21 @@ def ob_dataset(n: int, r0: int, r1: int, l0: int, g: int, g2: int, none_first: b
 
 def why_dataset(n, r0, r1, l0, g, g2, none_first, two):
     return dataset_check(n, RES4[r0], RES4[r1], [1, 3][l0], RES4[g], RES4[(g + g2) % 4], bool(none_first), bool(two))[1]
+
+
+def ob_dataset_partial(n: int, r0: int, r1: int, l0: int, g: int, g2: int, none_first: bool, two: bool) -> bool:
+    """
+    pre: 0 <= n <= 2 and 0 <= r0 < 4 and 0 <= r1 < 4 and 0 <= l0 <= 1 and 0 <= g < 4 and 0 <= g2 <= 1
+    post: _
+    """
+    with NoTracing():
+        gg = _pick(g, 4)
+        return dataset_check(_pick(n, 3), RES4P[_pick(r0, 4)], RES4P[_pick(r1, 4)], [1, 3][_pick(l0, 2)], RES4P[gg], RES4P[(gg + _pick(g2, 2)) % 4],
+                             bool(_pick(none_first, 2)), bool(_pick(two, 2)))[0]
+
+
+def why_dataset_partial(n, r0, r1, l0, g, g2, none_first, two):
+    return dataset_check(n, RES4P[r0], RES4P[r1], [1, 3][l0], RES4P[g], RES4P[(g + g2) % 4], bool(none_first), bool(two))[1]
 
 
 # ------------------------------------------------------------------ pipeline-level differential (C16 / C17)
